@@ -78,6 +78,27 @@ def fam_fsm_states(q):
     return prog.gdl(), [], None, (None if q <= 1500 else "MUST-REJECT")
 
 
+def fam_max_rule_loop(q):
+    return HDR + GT + "table(sub) pass(1) {MaxRuleLoop = %d} cA > cB; endpass; endtable;\n" % q, [], lambda s, g: s["passes"][0]["maxRuleLoop"], q
+
+
+def fam_max_backup(q):
+    return HDR + GT + "table(sub) pass(1) {MaxBackup = %d} cA > cB; endpass; endtable;\n" % q, [], lambda s, g: s["passes"][0]["maxBackup"], q
+
+
+def fam_extra_ascent(q):
+    return HDR + "ExtraAscent = %dm; ExtraDescent = %dm;\n" % (q, q // 2) + GT + "table(sub) cA > cB; endtable;\n", [], \
+        lambda s, g: (s["extraAscent"] % 65536, s["extraDescent"] % 65536), (q, q // 2)     # (the decoder reads them as signed)
+
+
+def fam_feature_setting_value(q):
+    """a feature setting with value q (16 bits in Feat and Sill) that a rule tests"""
+    feat = ('table(feature) f1 { id = 100; name.1033 = string("F"); settings { a { value = 0; name.1033 = string("a"); } '
+            'b { value = %d; name.1033 = string("b"); } } default = a; } endtable;\n' % q)
+    return HDR + GT + feat + "table(sub) if (f1 == b) cA > cB; endif; endtable;\n", [], \
+        lambda s, g: sorted(v[0] % 65536 for ft in s["_feat"]["feats"] if ft["id"] == 100 for v in ft["settings"]), sorted([0, q % 65536] if -32768 <= q <= 65535 else [-1])
+
+
 def fam_features(q):
     feats = "".join('f%d { id = %d; name.1033 = string("F%d"); settings { a%d { value = 0; name.1033 = string("x"); } } default = a%d; }\n' % (i, 100 + i, i, i, i) for i in range(q))
     return HDR + GT + "table(feature)\n" + feats + "endtable;\ntable(sub) cA > cB; endtable;\n", [], None, q
@@ -167,6 +188,11 @@ FAMILIES = [
     ("justify_attr_ids_after_components", fam_justify_attr_ids, [40, 48, 49, 50, 52, 70], 120),
     ("lig_components_per_glyph", fam_lig_components_per_glyph, [254, 255, 256, 300], 120),
     ("fsm_states", fam_fsm_states, [400, 1500, 1600], 120),
+    ("max_rule_loop", fam_max_rule_loop, [254, 255, 256, 300], 120),
+    ("max_backup", fam_max_backup, [254, 255, 256, 300], 120),
+    ("extra_ascent_descent", fam_extra_ascent, [65534, 65535, 65536, 131070], 120),
+    ("feature_setting_value", fam_feature_setting_value, [65534, 65535, 65536, 70000], 120),
+    ("feature_setting_value_negative", lambda q: fam_feature_setting_value(-q), [32767, 32768, 32769, 70000], 120),
     ("features", fam_features, [62, 63, 64, 65, 200], 120),
     ("user_attr_index", fam_userattr, [15, 16, 17, 64], 120),
     ("glyph_attrs", fam_gattrs, [250, 252, 253, 256, 300], 120),
@@ -228,7 +254,7 @@ def run(tier, seed, replay=None):
                 if not errs:
                     problems.append("exit 1 without any error in the error file")
             else:
-                outs = common.run_grcv(["font %s/out.ttf" % d, "c03", "dump silf", "dump glat"])
+                outs = common.run_grcv(["font %s/out.ttf" % d, "c03", "dump silf", "dump glat", "dump feat"])
                 c03 = []
                 i = 1
                 while outs[i] != "done":
@@ -240,6 +266,10 @@ def run(tier, seed, replay=None):
                 else:
                     s = json.loads(outs[i + 1])
                     g = json.loads(outs[i + 2])
+                    try:
+                        s["_feat"] = json.loads(outs[i + 3])
+                    except (ValueError, IndexError):
+                        s["_feat"] = None
                     f = gr2.Face(os.path.join(d, "out.ttf"))
                     okf = ("NOENGINE" in opts) or (f.ok() and f.shape([0x62, 0x62, 0x63]) is not None)
                     f.close()
